@@ -337,6 +337,7 @@ func build(g *graph) *built {
 		b.atts[i] = &expr.AttributeExpr{}
 	}
 	// shells first (cycles), then contents
+	results := 0 // result types seen so far: consecutive ones get identifiers that differ in their suffix only
 	for i, n := range g.nodes {
 		switch n.kind {
 		case "p":
@@ -352,7 +353,8 @@ func build(g *graph) *built {
 		case "t":
 			ut := &expr.UserTypeExpr{TypeName: n.name, UID: "uid-" + strconv.Itoa(i)}
 			if n.result {
-				rt := &expr.ResultTypeExpr{UserTypeExpr: ut, Identifier: "application/vnd." + strconv.Itoa(i)}
+				rt := &expr.ResultTypeExpr{UserTypeExpr: ut, Identifier: "application/vnd.T" + strconv.Itoa(results/2) + []string{"+json", "+xml"}[results%2]}
+				results++
 				rt.Views = []*expr.ViewExpr{{AttributeExpr: &expr.AttributeExpr{Type: &expr.Object{}}, Name: "default", Parent: rt}}
 				b.nodes[i] = rt
 			} else {
@@ -877,6 +879,13 @@ func run(toks []string) string {
 				m = "original-changed:" + firstDiff(d1.String(), d3.String())
 			}
 			res = append(res, mode+"_mut="+m)
+			// Equal is "same structural hash": also for a copy that was changed afterwards (same user type ids, other structure)
+			if expr.Equal(orig, cp) != (expr.Hash(orig, false, true, true) == expr.Hash(cp, false, true, true)) ||
+				expr.Equal(cp, orig) != (expr.Hash(orig, false, true, true) == expr.Hash(cp, false, true, true)) {
+				res = append(res, mode+"_equal=disagrees-with-hash")
+			} else {
+				res = append(res, mode+"_equal=ok")
+			}
 		}
 		return strings.Join(res, " ")
 	}
